@@ -126,11 +126,11 @@ def run(ctx):
     # 1. S => P on the chained cache: all arrival orders x gaps x flows; seeded defects must be rejected
     t0 = time.time()
     mc = tlc.run("MsgStoreMC", "MC_MsgStore_thorough.cfg" if ctx.thorough else "MC_MsgStore.cfg", workers=6, timeout=1500,
-                 heap="8g", tag="C09-mc")
+                 heap="8g", tag="C09-mc") if not ctx.replay_path else {"violated": [], "distinct": 0, "generated": 0}
     if mc["violated"]:
         ctx.drift.append("S model of the chained cache violates the part-arrival monitor: %s" % mc["violated"])
     vac = {}
-    for m in (1, 2, 3):
+    for m in (() if ctx.replay_path else (1, 2, 3)):
         r = tlc.run("MsgStoreMC", "MC_MsgStore_mut%d.cfg" % m, workers=2, timeout=600, heap="4g", tag="C09-mcmut%d" % m)
         vac[m] = r["violated"]
         if not r["violated"]:
@@ -140,7 +140,14 @@ def run(ctx):
 
     # 2. TLC-generated cases replayed on the real objects, judged by TLC
     t0 = time.time()
-    g = tlc.run("C09Gen", "C09Gen.cfg", env={"VF_TIER": ctx.tier, "VF_OUT": gen}, workers=4, timeout=900, heap="8g", tag="C09-gen")
+    if ctx.replay_path:      # re-run one recorded case instead of generating the domain
+        with open(ctx.replay_path) as f:
+            case = json.load(f)["replay"]["case"]
+        with open(os.path.join(gen, "replay0.ndjson"), "w") as f:
+            f.write(json.dumps(case, separators=(",", ":")) + "\n")
+        g = {"vf": [["VF", "SHARD", "replay", 0, 1]]}
+    else:
+        g = tlc.run("C09Gen", "C09Gen.cfg", env={"VF_TIER": ctx.tier, "VF_OUT": gen}, workers=6, timeout=900, heap="8g", tag="C09-gen")
     shards = {}
     for v in g["vf"]:
         if len(v) >= 5 and v[1] == "SHARD":
@@ -197,7 +204,7 @@ def run(ctx):
         lines = render_lines(r["c"]["def"])
         ops = [render_op(r["c"]["def"], op) for op in r["c"]["ops"]]
         ctx.violation("C09:" + reason, "definition %s: %s (operations %s ...)" % (" | ".join(lines), reason, "; ".join(ops[:8])),
-                      {"lines": lines, "ops": ops, "events": r["ev"], "load": r["load"]})
+                      {"lines": lines, "ops": ops, "events": r["ev"], "load": r["load"], "case": r["c"]})
     for reason, cnt in sorted(notes.items()):
         if reason == "loadable-definition-rejected":
             ctx.notes.append("%d generated definitions within the length limit were rejected when loaded (not demanded by the property)" % cnt)
